@@ -674,6 +674,33 @@ class P(Prop):
         ibaq = [[p, rng.choice([0, 0, 1, 2, 3, 7, 12])] for p in sorted(set(reported)) if rng.random() < 0.8]
         return {"files": files, "groups": groups, "level": rat(level), "ibaq": ibaq, "layout": layout}
 
+    def exhaustive_cases(self, tier):
+        """every pair of evidence rows over 6 protein lists x 3 PEPs x 2 experiments (second row: same or
+        another peptide), two reported groups, label free, level 1/100"""
+        import itertools
+
+        prot_lists = [["A1"], ["A1", "B2"], ["A1", "C3"], ["C3"], ["A1", "Z9"], ["REV__A1", "B2"]]
+        peps = ["nan", rat(Fraction(1, 1024)), rat(Fraction(1, 2))]
+        layout = {"silac": 0, "tmt": 0, "has_experiment": True, "has_fraction": False}
+        one = list(itertools.product(prot_lists, peps, ["E1", "E2"]))
+        out = []
+        for (p1, q1, e1), (p2, q2, e2) in itertools.product(one, one):
+            for pep2 in ("AAAAAAK", "CCCCCCR"):
+                rows = [
+                    {"id": 0, "pep": "AAAAAAK", "z": 2, "exp": e1, "frac": "-1", "prot": p1, "int": rat(100), "pp": q1, "silac": [], "tmt": []},
+                    {"id": 1, "pep": pep2, "z": 2, "exp": e2, "frac": "-1", "prot": p2, "int": rat(7), "pp": q2, "silac": [], "tmt": []},
+                ]
+                out.append(
+                    {
+                        "files": [rows],
+                        "groups": [["A1", "B2"], ["C3"]],
+                        "level": rat(0.01),
+                        "ibaq": [["A1", 2], ["C3", 0]],
+                        "layout": layout,
+                    }
+                )
+        return out
+
     # -- the implementation --------------------------------------------------------------
     def run_impl(self, case):
         if case.get("cli"):
